@@ -315,7 +315,7 @@ def process_fn(src: str, src_file: str, it: rustscan.Item, dirs: List[Directive]
             edits.append(Edit(it.body_open, it.body_open, '\n' + text + '\n', 'spec:%s:%d' % (info.fn, d.line)))
             info.n_requires += count_clauses(text, 'requires')
             info.n_ensures += count_clauses(text, 'ensures')
-            info.clauses.append(re.sub(r'\s+', ' ', text.strip()))
+            info.clauses.extend(split_clauses(text))
     # --- loops
     loops = find_loops(st, body_open_i + 1, body_close_i)
     for d in dirs:
@@ -346,6 +346,7 @@ def process_fn(src: str, src_file: str, it: rustscan.Item, dirs: List[Directive]
             text = '\n'.join(d.payload)
             edits.append(Edit(st[bi].start, st[bi].start, '\n' + text + '\n', 'loop%d:%s:%d' % (n, info.fn, d.line)))
             info.n_invariants += count_clauses(text, 'invariant')
+            info.clauses.extend(('loop-' + k, c) for k, c in split_clauses(text))
     for d in dirs:
         if d.kind in ('loopbody', 'loopbody?'):
             n = int(d.arg.split()[0])
@@ -381,6 +382,7 @@ def process_fn(src: str, src_file: str, it: rustscan.Item, dirs: List[Directive]
                 edits.append(Edit(pos, pos, 'proof { assert(%s); } // await-point %d\n' % (expr, w + 1),
                                   'await%d:%s:%d' % (w + 1, info.fn, d.line)))
                 info.n_asserts += 1
+                info.clauses.append(('await-invariant', 'await-point %d: %s' % (w + 1, expr)))
     # --- hints
     for d in dirs:
         if d.kind in ('hint', 'hint?'):
@@ -429,7 +431,39 @@ def process_fn(src: str, src_file: str, it: rustscan.Item, dirs: List[Directive]
                 info.trusted = True
 
 
+def split_clauses(text: str):
+    """[(keyword, clause text)] for the top-level comma separated clauses of a spec block"""
+    toks = [t for t in lex(text) if t.kind != 'comment']
+    kws = {'requires', 'ensures', 'invariant', 'decreases', 'invariant_except_break', 'recommends', 'no_unwind'}
+    res = []
+    cur = None
+    depth = 0
+    buf = []
+
+    def flush():
+        s = ''.join(buf).strip()
+        if cur and s:
+            res.append((cur, re.sub(r'\s+', ' ', s)))
+        buf.clear()
+    for t in toks:
+        if t.kind == 'ident' and t.text in kws and depth == 0:
+            flush(); cur = t.text; continue
+        if t.kind == 'punct' and t.text in ('(', '[', '{'):
+            depth += 1
+        elif t.kind == 'punct' and t.text in (')', ']', '}'):
+            depth -= 1
+        if t.kind == 'punct' and t.text == ',' and depth == 0:
+            flush(); continue
+        buf.append(t.text)
+    flush()
+    return res
+
+
 def count_clauses(text: str, kw: str) -> int:
+    return sum(1 for k, _ in split_clauses(text) if k == kw)
+
+
+def _old_count_clauses(text: str, kw: str) -> int:
     """number of comma separated clauses after keyword kw (top-level commas)"""
     toks = sig(lex(text))
     n = 0
